@@ -1,6 +1,10 @@
 (* Interp/RunStep.v — step-call cases (family c11steps):
      (steps ENV (plugin STEP...) MODE (calls CALL...))
-     STEP ::= (stepd|stepd-any "id" HASINIT INPUT (("out" SCHEMA)...) (("sig" SCHEMA)...))
+     STEP ::= (stepd|stepd-any "id" HASINIT INPUT (("out" SCHEMA)...) (SIG...))
+     SIG ::= ("key" SCHEMA) | ("key" SCHEMA "ownid")
+              "key" is the key under which the step REGISTERS the handler (SignalHandlersValue); "ownid" is the
+              signal's own IDValue when it differs from the key.  Every lookup goes by the key (Call/StepSig.v):
+              the model drops the own id, handler log entries and calls name signals by their key
               stepd-any: the Go step is instantiated with StepData = any (an interface type) instead of a
               pointer type; the model does not distinguish the two (D65 repaired: a nil interface reaches
               the signal handler as the zero value, exactly like a nil pointer)
@@ -9,6 +13,7 @@
      CALL ::= (call "run" "step" RAW "outid" OUTDATA)     the handler returns (outid, OUTDATA)
             | (signal "run" "step" "sig" RAW)
             | (dcall "run" "step" NATIVE "outid" OUTDATA)   CallableStep.Call called directly with a native value
+            | (dsignal "run" "step" "sig" NATIVE)           CallableStep.CallSignal called directly on the step object
    observation:
      (r (RES...) (inits ("step" N)...))
      RES ::= (c (h ENTRY...) RESULT ISO)
@@ -18,11 +23,12 @@
                            the handlers of (step, run) saw — 0 everywhere iff one value per run
      RESULT ::= (ok "outid" VALUE) | ok | (err badarg|input|output|plain) | panic | diverged
      ISO ::= (iso nostep) | (iso nosig) | (iso U) | (iso U V S)   the data operations in isolation
+           | (iso V)     for dsignal: Validate of the native data by the schema registered under the key
            | (iso V OV)  for dcall: Validate of the input, Validate of the handler's output (or `undeclared`);
              the RESULT of a dcall carries the handler's data as it is (not serialized) *)
 From Verif Require Import Base.Prelude Base.Str Base.Float Base.GoVal
   Schema.Regex Schema.Units Schema.Syntax Schema.Ops Schema.FloatUnits ATP.Msg Call.Step
-  Generated.Tables Interp.Sexp Interp.RunUnits Interp.Codec Interp.RunSchema.
+  Call.StepSig Generated.Tables Interp.Sexp Interp.RunUnits Interp.Codec Interp.RunSchema.
 Open Scope string_scope.
 Open Scope Z_scope.
 
@@ -31,12 +37,17 @@ Definition named_schemas_of (l : list sexp) : option (list (string * schema)) :=
                      | Ls [St k; s] => s' <-? schema_of DEPTH s ;; Some (k, s')
                      | _ => None end) l.
 
+Definition named_signals_of (l : list sexp) : option (list (string * schema)) :=
+  opt_mapM (fun y => match y with
+                     | Ls [St k; s] | Ls [St k; s; St _] => s' <-? schema_of DEPTH s ;; Some (k, s')
+                     | _ => None end) l.
+
 Definition stepd_of (x : sexp) : option (stepid * step_d) :=
   match x with
   | Ls [At kind; St id; hi; inp; Ls outs; Ls sigs] =>
       if String.eqb kind "stepd" || String.eqb kind "stepd-any" then
         h <-? b_of_atom hi ;; i <-? schema_of DEPTH inp ;;
-        os <-? named_schemas_of outs ;; ss <-? named_schemas_of sigs ;;
+        os <-? named_schemas_of outs ;; ss <-? named_signals_of sigs ;;
         Some (id, mkStepD i os ss h)
       else None
   | _ => None
@@ -45,7 +56,8 @@ Definition stepd_of (x : sexp) : option (stepid * step_d) :=
 Inductive ccall :=
 | CCall (run sid : string) (raw : gval) (oid : string) (odata : gval)
 | CSignal (run sid sig : string) (raw : gval)
-| CDirect (run sid : string) (input : gval) (oid : string) (odata : gval).
+| CDirect (run sid : string) (input : gval) (oid : string) (odata : gval)
+| CDSignal (run sid sig : string) (input : gval).
 
 Definition ccall_of (x : sexp) : option ccall :=
   match x with
@@ -55,15 +67,18 @@ Definition ccall_of (x : sexp) : option ccall :=
       r <-? gval_of DEPTH raw ;; Some (CSignal run sid sg r)
   | Ls [At "dcall"; St run; St sid; inp; St oid; od] =>
       r <-? gval_of DEPTH inp ;; o <-? gval_of DEPTH od ;; Some (CDirect run sid r oid o)
+  | Ls [At "dsignal"; St run; St sid; St sg; inp] =>
+      r <-? gval_of DEPTH inp ;; Some (CDSignal run sid sg r)
   | _ => None
   end.
-Definition ccall_run (c : ccall) : string := match c with CCall r _ _ _ _ | CSignal r _ _ _ | CDirect r _ _ _ _ => r end.
+Definition ccall_run (c : ccall) : string := match c with CCall r _ _ _ _ | CSignal r _ _ _ | CDirect r _ _ _ _ | CDSignal r _ _ _ => r end.
 
-Definition op_of_ccall (c : ccall) : sop :=
+Definition op_of_ccall (c : ccall) : sop2 :=
   match c with
-  | CCall run sid raw oid od => OpCall run sid raw (fun _ _ => (oid, od))
-  | CSignal run sid sg raw => OpSignal run sid sg raw
-  | CDirect run sid inp oid od => OpDirect run sid inp (fun _ _ => (oid, od))
+  | CCall run sid raw oid od => OpBase (OpCall run sid raw (fun _ _ => (oid, od)))
+  | CSignal run sid sg raw => OpBase (OpSignal run sid sg raw)
+  | CDirect run sid inp oid od => OpBase (OpDirect run sid inp (fun _ _ => (oid, od)))
+  | CDSignal run sid sg inp => OpDirectSignal run sid sg inp
   end.
 
 (* ---- projection ---- *)
@@ -146,6 +161,15 @@ Definition iso_of (e : env) (p : plugin) (c : ccall) : sexp :=
           | Some ss => Ls [At "iso"; s_iso s_val (m_unser FUEL e ss raw)]
           end
       end
+  | CDSignal _ sid sg inp =>
+      match alookup sid p with
+      | None => Ls [At "iso"; At "nostep"]
+      | Some st =>
+          match alookup sg (sd_signals st) with
+          | None => Ls [At "iso"; At "nosig"]
+          | Some ss => Ls [At "iso"; s_iso s_unit (m_validate FUEL e ss inp)]
+          end
+      end
   | CDirect _ sid inp oid od =>
       match alookup sid p with
       | None => Ls [At "iso"; At "nostep"]
@@ -158,7 +182,7 @@ Definition iso_of (e : env) (p : plugin) (c : ccall) : sexp :=
       end
   end.
 
-Definition m_exec_ops (e : env) := exec_ops bool_words parse_units_float e FUEL.
+Definition m_exec_ops (e : env) := exec_ops2 bool_words parse_units_float e FUEL.
 
 Definition run_steps_case (x : sexp) : sexp :=
   match x with
